@@ -1892,7 +1892,7 @@ def _argument_to_array(d: Any, array: Array) -> Iterable[Tuple[Argument, Array]]
             arg = Argument(arg, *array.arguments[arg])
         elif not isinstance(arg, Argument):
             raise ValueError('Key must be string or argument')
-        elif arg.name not in arguments:
+        elif arg.name not in array.arguments:
             continue
         elif array.arguments[arg.name] != (arg.shape, arg.dtype):
             raise ValueError(f'Argument {arg.name!r} has wrong shape or dtype')
